@@ -290,13 +290,13 @@ TENSOR_PATTERNS = ("indexed",) * 4 + gen.WEIGHTED_PATTERNS
 
 
 @st.composite
-def tensor_cases(draw, tier):
-    hi = 6 if tier == "quick" else 8
+def tensor_cases(draw, tier, size=None):
+    lo_, hi = size or (1, 6 if tier == "quick" else 8)
     if draw(st.integers(0, 2)) == 0:
-        dims = draw(st.permutations(draw(st.lists(st.integers(2, hi), min_size=3, max_size=3, unique=True))))
+        dims = draw(st.permutations(draw(st.lists(st.integers(max(2, lo_), hi), min_size=3, max_size=3, unique=True))))
         I, J, K = dims
     else:
-        I, J, K = draw(st.integers(1, hi)), draw(st.integers(1, hi)), draw(st.integers(1, hi))
+        I, J, K = draw(st.integers(lo_, hi)), draw(st.integers(lo_, hi)), draw(st.integers(lo_, hi))
     mode = draw(st.integers(0, 2))
     layout = draw(st.sampled_from(["C", "C", "F", "strided", "transposed"]))
     pattern = draw(st.sampled_from(TENSOR_PATTERNS))
@@ -773,6 +773,8 @@ PROPERTY = Property(
     clauses=[
         Clause("tensor_exhaustive", check_tensor_enum, enumerate=enum_tensor, budget={"quick": 0, "thorough": 0}),
         Clause("tensor_generated", check_tensor_gen, strategy=tensor_cases, budget={"quick": 1000, "thorough": 10000}),
+        Clause("tensor_moderate_size", check_tensor_gen, strategy=lambda tier: tensor_cases(tier, size=(6, 12 if tier == "quick" else 16)),
+               budget={"quick": 40, "thorough": 400}, shrink=False),
         Clause("tensor_long_dimension", check_tensor_gen, strategy=long_tensor_cases, budget={"quick": 24, "thorough": 240},
                shrink=False),
         Clause("colour_roundtrip", check_colour, strategy=colour_cases, budget={"quick": 800, "thorough": 8000}),
